@@ -100,10 +100,16 @@ Definition allowed_b (pre suf : list item) : bool :=
   end.
 
 (* forced break: right after a Hard; the Close edges that follow it stay with it *)
+Fixpoint after_hard (pre : list item) : bool :=
+  match pre with
+  | Hard :: _ => true
+  | Close _ :: r => after_hard r
+  | _ => false
+  end.
+
 Definition forced_b (pre suf : list item) : bool :=
   match suf with
-  | s :: _ => negb (is_close s) &&
-              match content pre with Some Hard => true | _ => false end
+  | s :: _ => negb (is_close s) && after_hard pre
   | [] => false
   end.
 
@@ -195,7 +201,7 @@ Record cfg := mkCfg {
   lh : Z;           (* line-height *)
   al : align;
   pcoll : bool;     (* the block's own white-space collapses spaces (justification allowed) *)
-  x0 : Z; y0 : Z    (* content-box origin of the block *)
+  x0 : Q; y0 : Q    (* content-box origin of the block *)
 }.
 
 Inductive frag := FT (x w : Q) | FA (x w : Q).    (* text fragment / atomic box *)
@@ -251,7 +257,7 @@ Definition place (c : cfg) (first last : bool) (l : list item) : list frag :=
   let ind := if first then indent c else 0%Z in
   let v := trim_line l in
   let '(off, extra) := align_params c ind last v in
-  walk (em c) extra (zq (x0 c + ind) + off) None v.
+  walk (em c) extra (x0 c + zq ind + off) None v.
 
 (* ---- vertical extent of a line box whose boxes all use the block's font and
    vertical-align: baseline (CSS 2.1 10.8).  Relative to the baseline: the strut and
@@ -285,4 +291,4 @@ Fixpoint stack (c : cfg) (first : bool) (y : Q) (ls : list (list item)) : list o
   end.
 
 Definition layout (c : cfg) (items : list item) : list oline :=
-  stack c true (zq (y0 c)) (flat (break_lines (avail c) (indent c) items)).
+  stack c true (y0 c) (flat (break_lines (avail c) (indent c) items)).
